@@ -101,4 +101,12 @@ CLAIMS = {
         'note': TB + 'concurrent overlapping offers (in-flight mark set in the receive goroutine after the reply) are not exhibited by this check; uTP is trusted.',
         'technique': 'Lean 4 decision-logic proofs + differential correspondence on real instances + end-to-end transfers',
     },
+    'C20': {
+        'text': 'Lean 4 theorems: any result allowed by the selection relation has at most 8 targets, all among the closest table nodes with a known '
+                'covering radius, never the source, and includes the 4 closest covered; after any sequence of ping/pong reports the cached radius is that of '
+                'the last report that applies (member, supported type, decodable); unknown peers are never targets. The real GossipAndReturnPeers is '
+                'checked against the decidable relation on 450 calls and the radius cache by step equality on ~350 events through the real handlers.',
+        'note': TB + 'the asynchronous processing of ping payloads (goroutine per ping) can reorder two reports of one peer; the model takes the order as given (partial).',
+        'technique': 'Lean 4 proofs (relation => property; fold invariant) + relation/step correspondence on real instances',
+    },
 }
